@@ -159,6 +159,8 @@ def main(chk):
             jobs.append((key + '/points that are not on the interface are not touched', pc, cl, tmo, 'map', 'non-interface point moved'))
     # ---- K3: add_point_to_face + divide_faces on two triangles sharing the cut edge, symbolic ids ------------------------------------
     k3(chk, ir, native, z, quick)
+    # ---- K4: orchestration of divide_cell around its (stubbed) stages -----------------------------------------------------------------
+    k4(chk, ir, z, quick)
     chk.log('%d obligations' % len(jobs))
     outs = par.prove_all(z, jobs, procs=14)
     for job, (st, model, dt) in zip(jobs, outs):
@@ -241,6 +243,88 @@ def k3(chk, ir, native, z, quick):
                             chk.violation('C09/split/triangles do not tile the cut faces', '%s: %s; native (ids a..d = 0..3, P,Q,R = 4..6): %r' % (key, '; '.join(probs[:2]), q['i'][:26]), {'cfg': cfg, 'problems': probs, 'native': q['i']})
     chk.validation['inputs'] += nval; chk.validation['mismatches'] += mism; chk.validation['programs'] += 1
     chk.functions |= sess.functions_called | sc.functions_called
+
+def k4(chk, ir, z, quick):
+    """the real body of cell_divider::divide_cell with every stage replaced by a stand-in that either succeeds or throws one of the exceptions
+    the real stage throws: on success both daughters are of the mother's class and get half of the mother's TARGET volume (symbolic,
+    independent of her volume); a failure at any stage with any std-derived exception yields 'no division', no exception escapes (the function
+    is noexcept: an escaping exception would terminate) and the mother's surface is untouched."""
+    import subprocess
+    mod = api.load_module(ir)
+    names = list(mod.funcs)
+    dem = subprocess.run(['c++filt'], input='\n'.join(names), capture_output=True, text=True).stdout.split('\n')
+    def sym(prefix):
+        hits = [n for n, d in zip(names, dem) if d.startswith(prefix)]
+        if len(hits) != 1: raise RuntimeError('symbol for %r: %r' % (prefix, hits))
+        return hits[0]
+    MAP = {'cell_divider::add_intersection_points(': 'k4_add_intersection_points(', 'cell_divider::divide_faces(': 'k4_divide_faces(', 'initial_triangulation::coarse_triangulation(': 'k4_coarse_triangulation(',
+           'cell_divider::map_points_to_xy_plane(': 'k4_map_points_to_xy_plane(', 'cell_divider::triangulate_division_interface(': 'k4_triangulate_division_interface(',
+           'cell_divider::map_points_to_division_plane(': 'k4_map_points_to_division_plane(', 'cell_divider::create_daughter_cells(': 'k4_create_daughter_cells(', 'local_mesh_refiner::refine_mesh(': 'k4_refine_mesh('}
+    ov = {}
+    for real, stub in MAP.items():
+        r_, s_ = sym(real), sym(stub)
+        ov[r_] = (lambda it, a, s_=s_: it.call_function(s_, a))
+    # the normal distribution draw is environment (as in C04): mean + stddev * Z
+    ND = [n for n, d in zip(names, dem) if d.startswith('double std::normal_distribution<double>::operator()<')]
+    for n in ND:
+        def nd_stub(it, args):
+            from irsym.interp import K_DOUBLE
+            p_ = args[2]
+            mean = it.load(p_, 8, K_DOUBLE); sd = it.load(p_ + 8, 8, K_DOUBLE)
+            return mean if (type(sd) is float and sd == 0.0) else S.add(S.R(mean), S.mul(S.R(sd), S.var('Z')))
+        ov[n] = nd_stub
+    Vt = S.var('Vt')
+    pre = [S.cmp('gt', Vt, S.ZERO)]
+    CL = ['epithelial', 'ecm', 'lumen', 'nucleus', 'static']
+    KN = ('division_exception', 'mesh_integrity_exception', 'intialization_exception', 'std::bad_alloc')
+    stages = {1: 'add_intersection_points', 2: 'divide_faces', 5: 'triangulate_division_interface', 7: 'create_daughter_cells', 8: 'refine_mesh'}
+    sess = api.Session(ir, mode='real', overrides=ov)
+    ref = None
+    for cls in ((0,) if quick else range(5)):
+        for stage in [0] + sorted(stages):
+            for kind in ((0,) if stage == 0 else ((0, 3) if quick else (0, 1, 2, 3))):
+                ctl, res = sess.explore('h_c09_orchestrate', [Vt], [cls, stage, kind], assumptions=pre, zctx=z, max_paths=20, branch_timeout_ms=5000)
+                chk.paths += ctl.paths_done
+                tag = 'K4 divide_cell orchestration/%s mother/%s' % (CL[cls], 'all stages succeed' if stage == 0 else 'stage %s throws %s' % (stages[stage], KN[kind]))
+                real = [(tr, pc, r) for (tr, pc, r) in res if getattr(r, 'status', None) != 'pathend']
+                if not ctl.exhausted or not real:
+                    chk.fail_closed.append(tag + ': exploration incomplete'); continue
+                for (tr, pc, r) in real:
+                    if r.status != 'ok':
+                        what = '%s %r' % (r.status, getattr(r, 'error', getattr(r, 'exception', None)))
+                        chk.ob(tag + '/no exception escapes and the run completes', 'violated', True, 0, {'status': what})
+                        chk.violation('C09/orchestration/an exception of a stage escapes divide_cell', '%s: %s' % (tag, what[:300]), {'class': cls, 'stage': stage, 'kind': kind, 'status': what,
+                                      'how': 'harness h_c09_orchestrate (/verif/harness/h_divide.cpp) with the stages of divide_cell mapped to the k4_* stand-ins'})
+                        continue
+                    divided = r.iout[0]
+                    mother_i = r.iout[4:] if divided else r.iout[2:]
+                    mother_d = r.dout[2:] if divided else r.dout
+                    if stage == 0 and cls == 0 and ref is None: ref = (mother_i, [v for v in mother_d[:-2]])
+                    if stage == 0:
+                        ok_cls = divided == 1 and r.iout[2] == cls and r.iout[3] == cls
+                        chk.ob(tag + '/division succeeds with two daughters of the class of the mother', 'proved' if ok_cls else 'violated', True, 0, {'iout': r.iout[:4]})
+                        if not ok_cls:
+                            chk.violation('C09/orchestration/daughters are not two cells of the mother class', '%s: %r' % (tag, r.iout[:4]), {'class': cls, 'iout': r.iout[:4]})
+                            continue
+                        half = S.div(Vt, S.const(2))
+                        st1, m1 = SV.prove(z, pc, S.band(S.cmp('eq', S.R(r.dout[0]), half), S.cmp('eq', S.R(r.dout[1]), half)), 20000)
+                        show = lambda v: S.show(v, 3) if isinstance(v, S.Node) else v
+                        chk.ob(tag + '/each daughter inherits half of the target volume of the mother', st1, True, 0, {'d1': show(r.dout[0])})
+                        chk.witnesses += 1
+                        if st1 == 'violated':
+                            chk.violation('C09/orchestration/daughter target volume is not half of the mother target volume', '%s: daughters get %s and %s for a mother with target volume Vt (volume %r)' % (
+                                tag, show(r.dout[0]), show(r.dout[1]), mother_d[-1]), {'class': cls, 'model': m1,
+                                'how': 'real divide_cell body with stubbed stages (harness h_c09_orchestrate); natively: divide a cell whose target volume differs from its volume'})
+                    else:
+                        same = divided == 0
+                        chk.ob(tag + '/the failure is converted into "no division"', 'proved' if same else 'violated', True, 0, {'iout': r.iout[:2]})
+                        if not same: chk.violation('C09/orchestration/failed stage still yields a division', tag, {'class': cls, 'stage': stage, 'kind': kind})
+                    # mother untouched: same node/face counts, coordinates and triangles as after construction (target volume is still Vt)
+                    if ref is not None and cls == 0:
+                        unchanged = mother_i == ref[0] and all((a is b) or (a == b) for a, b in zip(mother_d[:-2], ref[1])) and (mother_d[-2] is Vt)
+                        chk.ob(tag + '/the surface and the target volume of the mother are untouched', 'proved' if unchanged else 'violated', True, 0)
+                        if not unchanged: chk.violation('C09/orchestration/mother modified by divide_cell', tag, {'class': cls, 'stage': stage, 'kind': kind})
+    chk.functions |= sess.functions_called
 
 def sum_(PT, k):
     r = S.ZERO
